@@ -895,6 +895,14 @@ func (x *Exec) collectMods(fn *ssa.Function, blocks map[*ssa.BasicBlock]bool, se
 					if cc.Method.Name() == "Error" || (cc.Method.Pkg() != nil && cc.Method.Pkg().Path() == "context") {
 						continue
 					}
+					if c := x.portContract(cc.Method); c != nil && len(c.Assigns) > 0 {
+						if ms, ok := x.globalAssignKeys(c); ok {
+							for _, m := range ms {
+								mergeModTarget(acc, m)
+							}
+							continue
+						}
+					}
 					if os.Getenv("WKV_DEBUG_MODS") != "" {
 						fmt.Fprintf(os.Stderr, "mods: unknown effects: interface call %s in %s\n", cc.Method.FullName(), funcKey(fn))
 					}
